@@ -110,10 +110,16 @@ pub fn install_panic_hook() {
         };
         let loc = info.location().map(|l| format!("{}:{}", l.file(), l.line())).unwrap_or_default();
         // A panic outside every guard is a harness bug: make it visible.
-        if GUARD_DEPTH.with(|d| d.get()) == 0 { eprintln!("VMON-UNGUARDED-PANIC {} @ {}", msg, loc); }
+        if GUARD_DEPTH.with(|d| d.get()) == 0 {
+            eprintln!("VMON-UNGUARDED-PANIC {} @ {}", msg, loc);
+            if std::env::var("VMON_BACKTRACE").is_ok() { eprintln!("{}", std::backtrace::Backtrace::force_capture()); }
+        }
         LAST_PANIC.with(|p| *p.borrow_mut() = format!("{} @ {}", msg, loc));
     }));
 }
+
+// The message and location of the most recent panic on this thread.
+pub fn last_panic() -> String { LAST_PANIC.with(|p| p.borrow().clone()) }
 
 // Runs `f`, turning a panic into `Err(message @ location)`.
 pub fn guard<T>(f: impl FnOnce() -> T) -> Result<T, String> {
